@@ -91,7 +91,7 @@ pub fn gen_header(ch: &mut Choices) -> LineHeader {
     };
     // strx forms need one common form per table; choose formats first for v5
     if v5 {
-        let path_form = ch.pick(&[FORM_STRING, FORM_STRING, FORM_LINE_STRP, FORM_STRP, 0x1a, 0x25, 0x26, 0x27, 0x28]);
+        let path_form = ch.pick(&[FORM_STRING, FORM_STRING, FORM_LINE_STRP, FORM_STRP, 0x1a, 0x25, 0x26, 0x27, 0x28, 0x1d, 0x1f21]);
         let mut df = vec![(1u64, path_form)];
         if ch.chance(80) {
             // extra (ignored) content types before/after the path
@@ -103,7 +103,7 @@ pub fn gen_header(ch: &mut Choices) -> LineHeader {
             }
         }
         h.dir_format = df;
-        let fpath_form = ch.pick(&[FORM_STRING, FORM_STRING, FORM_LINE_STRP, FORM_STRP, 0x1a, 0x25, 0x26, 0x27, 0x28, 0x1f02]);
+        let fpath_form = ch.pick(&[FORM_STRING, FORM_STRING, FORM_LINE_STRP, FORM_STRP, 0x1a, 0x25, 0x26, 0x27, 0x28, 0x1f02, 0x1d, 0x1f21]);
         let mut ff: Vec<(u64, u16)> = vec![(1, fpath_form)];
         if ch.chance(200) {
             ff.push((2, ch.pick(&[FORM_UDATA, FORM_DATA1, FORM_DATA2, FORM_DATA4, FORM_DATA8])));
@@ -118,7 +118,7 @@ pub fn gen_header(ch: &mut Choices) -> LineHeader {
             ff.push((5, ch.pick(&[FORM_DATA16, FORM_DATA16, FORM_BLOCK1])));
         }
         if ch.chance(60) {
-            ff.push((0x2001, ch.pick(&[FORM_STRING, FORM_LINE_STRP, FORM_STRP])));
+            ff.push((0x2001, ch.pick(&[FORM_STRING, FORM_LINE_STRP, FORM_STRP, 0x1d, 0x1f21])));
         }
         if ch.chance(60) {
             ff.push((ch.pick(&[6u64, 0x2000, 0xffff, 0x12345]), ch.pick(&[FORM_UDATA, FORM_DATA2, FORM_BLOCK, FORM_DATA16, FORM_FLAG, FORM_SDATA])));
@@ -135,6 +135,7 @@ pub fn gen_header(ch: &mut Choices) -> LineHeader {
                 }
                 FORM_LINE_STRP => PathVal::LineStrp(ch.biased(if h.format64 { 40 } else { 32 })),
                 FORM_STRP => PathVal::Strp(ch.biased(if h.format64 { 40 } else { 32 })),
+                0x1d | 0x1f21 => PathVal::StrpSup(form, ch.biased(if h.format64 { 40 } else { 32 })),
                 f => {
                     let bits = match f {
                         0x25 => 8,
@@ -287,6 +288,7 @@ fn canon_attr(v: &AttributeValue<Rdr>) -> String {
         AttributeValue::String(s) => format!("inline:{:02x?}", s.slice()),
         AttributeValue::DebugLineStrRef(o) => format!("line_strp:{}", o.0),
         AttributeValue::DebugStrRef(o) => format!("strp:{}", o.0),
+        AttributeValue::DebugStrRefSup(o) => format!("strp_sup:{}", o.0),
         AttributeValue::DebugStrOffsetsIndex(i) => format!("strx:{}", i.0),
         other => format!("other:{:?}", other),
     }
@@ -297,6 +299,7 @@ fn canon_path(p: &PathVal) -> String {
         PathVal::Inline(b) => format!("inline:{:02x?}", &b[..]),
         PathVal::LineStrp(o) => format!("line_strp:{}", o),
         PathVal::Strp(o) => format!("strp:{}", o),
+        PathVal::StrpSup(_, o) => format!("strp_sup:{}", o),
         PathVal::Strx(_, i) => format!("strx:{}", i),
     }
 }
@@ -600,6 +603,41 @@ fn monotone(rows: &[MLineRow], address_size: u8) -> R {
     Ok(())
 }
 
+/// A generated program with tombstoned regions: set_address into the tombstone range (or backwards), register-setting
+/// and row-emitting operations inside the region, then (mostly) a new valid address.
+pub fn gen_tombstone_program(ch: &mut Choices, h: &LineHeader) -> Vec<LOp> {
+    let mut ops = gen_program(ch, h);
+    let m = mask(h.address_size);
+    let emitters: Vec<LOp> = ops.iter().filter(|o| matches!(o, LOp::Special(_) | LOp::Copy)).cloned().collect();
+    let setters: Vec<LOp> = ops.iter().filter(|o| matches!(o, LOp::SetPrologueEnd | LOp::SetEpilogueBegin | LOp::SetBasicBlock | LOp::SetIsa(_) | LOp::AdvanceLine(_) | LOp::SetFile(_) | LOp::SetColumn(_) | LOp::NegateStmt | LOp::AdvancePc(_) | LOp::ConstAddPc | LOp::FixedAdvancePc(_))).cloned().collect();
+    let k = 1 + ch.below(3);
+    for j in 0..k {
+        let at = ch.below(ops.len() + 1);
+        let mut ins = vec![LOp::SetAddress(ch.pick(&[m, m - 1, m, 0, 1]), 0)];
+        for _ in 0..ch.below(5) {
+            ins.push(match ch.below(4) {
+                0 => LOp::SetDiscriminator(1 + ch.below(9) as u64, 0),
+                1 if !emitters.is_empty() => emitters[ch.below(emitters.len())].clone(),
+                _ if !setters.is_empty() => setters[ch.below(setters.len())].clone(),
+                _ => LOp::SetDiscriminator(3, 0),
+            });
+        }
+        if !emitters.is_empty() {
+            ins.push(emitters[ch.below(emitters.len())].clone());
+        }
+        if ch.chance(200) {
+            ins.push(LOp::SetAddress((0x10_0000u64 * (j as u64 + 1) + ch.below(64) as u64) & (m >> 1), 0));
+            if !emitters.is_empty() {
+                ins.push(emitters[ch.below(emitters.len())].clone());
+            }
+        }
+        let tail = ops.split_off(at);
+        ops.extend(ins);
+        ops.extend(tail);
+    }
+    ops
+}
+
 /// Arbitrary program bytes behind a valid header: only the validity clauses.
 fn check_any_input(h: &LineHeader, big: bool, prog: &[u8], cx: &mut Ctx) -> R {
     let (bytes, _) = build_line(h, big, prog);
@@ -659,6 +697,35 @@ fn check_any_input(h: &LineHeader, big: bool, prog: &[u8], cx: &mut Ctx) -> R {
     if m.used_tombstone {
         cx.label("any-input:tombstone-policy");
     }
+    // every sequence resumed on its own gives a run of the rows of the straight pass (also when sequences around it
+    // were withheld entirely)
+    if matches!(m.end, LineEnd::Done) {
+        if let Ok((complete, seqs)) = dl.program(DebugLineOffset(0), h.address_size, None, None).and_then(|p| p.sequences()) {
+            let mut groups: Vec<Vec<MLineRow>> = vec![Vec::new()];
+            for r in &out {
+                groups.last_mut().unwrap().push(r.clone());
+                if r.end_sequence {
+                    groups.push(Vec::new());
+                }
+            }
+            groups.retain(|g| !g.is_empty());
+            for s in seqs.iter().rev() {
+                let mut rr = complete.resume_from(s);
+                let mut got = Vec::new();
+                loop {
+                    match rr.next_row() {
+                        Ok(Some((_, r))) => got.push(mrow(r)),
+                        Ok(None) => break,
+                        Err(e) => fail!("c04/any-input/resume-error", "{:?}", e),
+                    }
+                    if got.len() > prog.len() + 8 {
+                        fail!("c04/any-input/resume-unbounded", "");
+                    }
+                }
+                ensure!(groups.iter().any(|g| *g == got), "c04/any-input/resume-differs", "the sequence [{:#x},{:#x}) resumed on its own gives {:?}, which is not a sequence of the straight run {:?}", s.start, s.end, got, groups);
+            }
+        }
+    }
     Ok(())
 }
 
@@ -715,35 +782,7 @@ impl Prop for C04 {
                 // a generated program with tombstoned regions: set_address into the tombstone range (or backwards),
                 // register-setting and row-emitting operations inside the region, then (mostly) a new valid address
                 cx.label("mode:tombstones");
-                let mut ops = gen_program(ch, &h);
-                let m = mask(h.address_size);
-                let emitters: Vec<LOp> = ops.iter().filter(|o| matches!(o, LOp::Special(_) | LOp::Copy)).cloned().collect();
-                let setters: Vec<LOp> = ops.iter().filter(|o| matches!(o, LOp::SetPrologueEnd | LOp::SetEpilogueBegin | LOp::SetBasicBlock | LOp::SetIsa(_) | LOp::AdvanceLine(_) | LOp::SetFile(_) | LOp::SetColumn(_) | LOp::NegateStmt | LOp::AdvancePc(_) | LOp::ConstAddPc | LOp::FixedAdvancePc(_))).cloned().collect();
-                let k = 1 + ch.below(3);
-                for j in 0..k {
-                    let at = ch.below(ops.len() + 1);
-                    let mut ins = vec![LOp::SetAddress(ch.pick(&[m, m - 1, m, 0, 1]), 0)];
-                    for _ in 0..ch.below(5) {
-                        ins.push(match ch.below(4) {
-                            0 => LOp::SetDiscriminator(1 + ch.below(9) as u64, 0),
-                            1 if !emitters.is_empty() => emitters[ch.below(emitters.len())].clone(),
-                            _ if !setters.is_empty() => setters[ch.below(setters.len())].clone(),
-                            _ => LOp::SetDiscriminator(3, 0),
-                        });
-                    }
-                    if !emitters.is_empty() {
-                        ins.push(emitters[ch.below(emitters.len())].clone());
-                    }
-                    if ch.chance(200) {
-                        ins.push(LOp::SetAddress((0x10_0000u64 * (j as u64 + 1) + ch.below(64) as u64) & (m >> 1), 0));
-                        if !emitters.is_empty() {
-                            ins.push(emitters[ch.below(emitters.len())].clone());
-                        }
-                    }
-                    let tail = ops.split_off(at);
-                    ops.extend(ins);
-                    ops.extend(tail);
-                }
+                let ops = gen_tombstone_program(ch, &h);
                 let prog = encode_program(&ops, &h, big);
                 cx.sample_with(|| format!("program with tombstoned regions {:?} header v{} addr{} opcode_base={}", ops, h.version, h.address_size, h.opcode_base));
                 check_any_input(&h, big, &prog, cx)
